@@ -22,43 +22,78 @@ from harness import lmfgen
 from harness.wnenv import fresh_db, base_dir, main_loop, exc_name, JobTimeout, limit
 
 
-def graph_lexicon(g) -> dict:
+def graph_lexicons(g) -> list:
+    """The lexicon(s) of one graph.  With g['xnodes'] / g['xhyp'] / g['xhypo'] the
+    graph is spread over a lexicon and an extension of it: the listed nodes are synsets
+    of the extension, the listed edges (and every edge that touches an extension
+    node) are declared by the extension on external synsets.  A Wordnet over both
+    lexicons sees the same graph."""
     lid = f"g{g['id']}"
+    xid = lid + 'x'
     lex = lmfgen.mini_lexicon(lid)
     n = g['n']
-    ss = []
+    xnodes = set(g.get('xnodes', []))
+    split = bool(xnodes or g.get('xhyp') or g.get('xhypo'))
+    own = {False: [], True: []}            # synsets of the lexicon / of the extension
+    external = {}
+    by_node = {}
     for x in range(1, n + 1):
-        rels = []
-        for e in g['hyp']:
-            if e[0] == x:
-                rels.append({'relType': e[2] if len(e) > 2 else 'hypernym',
-                             'target': f'{lid}-s{e[1]}', 'meta': None})
-        for e in g.get('hypo', []):
-            if e[0] == x:
-                rels.append({'relType': e[2] if len(e) > 2 else 'hyponym',
-                             'target': f'{lid}-s{e[1]}', 'meta': None})
-        for e in g.get('other', []):
-            if e[0] == x:
-                rels.append({'relType': e[2], 'target': f'{lid}-s{e[1]}', 'meta': None})
-        ss.append({'id': f'{lid}-s{x}', 'ili': '', 'partOfSpeech': g['pos'][x - 1],
-                   'relations': rels, 'meta': None})
-    lex['synsets'] = ss
+        d = {'id': f'{lid}-s{x}', 'ili': '', 'partOfSpeech': g['pos'][x - 1],
+             'relations': [], 'meta': None}
+        by_node[x] = d
+        own[x in xnodes].append(d)
+
+    def declare(k, e, key, default):
+        inx = k in g.get(key, []) or e[0] in xnodes or e[1] in xnodes
+        rel = {'relType': e[2] if len(e) > 2 else default, 'target': f'{lid}-s{e[1]}', 'meta': None}
+        def ext(x):
+            return external.setdefault(x, {'id': f'{lid}-s{x}', 'external': True, 'relations': []})
+        if not inx:
+            by_node[e[0]]['relations'].append(rel)
+            return
+        # what an extension refers to in its base has to be declared as external
+        if e[1] not in xnodes:
+            ext(e[1])
+        if e[0] in xnodes:
+            by_node[e[0]]['relations'].append(rel)
+        else:
+            ext(e[0])['relations'].append(rel)
+    for k, e in enumerate(g['hyp']):
+        declare(k, e, 'xhyp', 'hypernym')
+    for k, e in enumerate(g.get('hypo', [])):
+        declare(k, e, 'xhypo', 'hyponym')
+    for k, e in enumerate(g.get('other', [])):
+        declare(k, e, 'xother', e[2])
+    lex['synsets'] = own[False]
     # words: {'form': [[synset index, pos-of-entry], ...]}
-    entries = []
+    entries = {False: [], True: []}
     k = 0
     for form, senses in g.get('words', []):
-        bypos = {}
+        bykey = {}
         for sx in senses:
-            bypos.setdefault(g['pos'][sx - 1], []).append(sx)
-        for pos, sxs in sorted(bypos.items()):
+            bykey.setdefault((sx in xnodes, g['pos'][sx - 1]), []).append(sx)
+        for (inx, pos), sxs in sorted(bykey.items()):
             k += 1
-            entries.append({
+            entries[inx].append({
                 'id': f'{lid}-w{k}', 'meta': None,
                 'lemma': {'writtenForm': form, 'partOfSpeech': pos},
                 'senses': [{'id': f'{lid}-w{k}-{sx}', 'synset': f'{lid}-s{sx}',
                             'meta': None} for sx in sxs]})
-    lex['entries'] = entries
-    return lex
+    lex['entries'] = entries[False]
+    if not split:
+        return [lex]
+    ext = lmfgen.mini_lexicon(xid)
+    ext['extends'] = {'id': lid, 'version': '1'}
+    ext['entries'] = entries[True]
+    ext['synsets'] = [external[x] for x in sorted(external)] + own[True]
+    return [lex, ext]
+
+
+def scope_of(g) -> str:
+    lid = f"g{g['id']}"
+    if g.get('xnodes') or g.get('xhyp') or g.get('xhypo'):
+        return f'{lid}:1 {lid}x:1'
+    return f'{lid}:1'
 
 
 def idx(ss) -> int:
@@ -275,14 +310,19 @@ def battery15_load(g, base):
 def handle(job):
     graphs = job['graphs']
     d = fresh_db('tax')
-    res = {'lmf_version': '1.3', 'lexicons': [graph_lexicon(g) for g in graphs]}
-    p = base_dir() / 'graphs.xml'
-    p.write_text(lmfgen.to_xml(res), encoding='utf-8')
-    wn.add(p, progress_handler=None)
+    lexs = [lx for g in graphs for lx in graph_lexicons(g)]
+    # (an extension in the same file as its base would be skipped: the base has to be
+    # installed when the file is scanned)
+    for name, part in (('graphs.xml', [lx for lx in lexs if 'extends' not in lx]),
+                       ('graphs-x.xml', [lx for lx in lexs if 'extends' in lx])):
+        if part:
+            p = base_dir() / name
+            p.write_text(lmfgen.to_xml({'lmf_version': '1.3', 'lexicons': part}), encoding='utf-8')
+            wn.add(p, progress_handler=None)
     out = []
     for g in graphs:
         lid = f"g{g['id']}"
-        w = wn.Wordnet(f'{lid}:1', expand='')
+        w = wn.Wordnet(scope_of(g), expand='')
         ss = {x: w.synset(f'{lid}-s{x}') for x in range(1, g['n'] + 1)}
         o = {'id': g['id']}
         try:
